@@ -16,6 +16,17 @@ TABLE = {
             'digest/plain choice is evaluated for all offers x configurations. Universal over server behaviour for the code shape, which a test cannot be.',
             'Decides code shape only: trusts QSslSocket::isEncrypted(), the clang front end and the Qt signal/slot contract; application calls into the '
             'send API before connected() are outside the quantifier.', 'DESIGN.md §2 C04'),
+    'C11': ('abstract evaluation of both carbon handlers for a foreign outer sender (sink reachability over the clang CFG) + def-use provenance of the presented message',
+            'Static: for QXmppCarbonManager and QXmppCarbonManagerV2 the handler is explored with the comparison "outer from == configuration().jidBare()" '
+            'bound to false and every other condition unknown; no signal emission, message injection, look into <forwarded/> or inner parse is reachable and '
+            'every exit returns false. Weakenings (extra disjunct, prefix/bare/case-insensitive comparison, inner sender) leave the comparison unbound and are '
+            'reported. The presented object is proven (def-use over all definitions) to be parsed from carbons/forwarded/message of parameter 0 and flagged forwarded.',
+            'Trusts QString ==/!= to be exact; value-level facts about jidBare() for degenerate configurations are not decided.', 'DESIGN.md §2 C11'),
+    'C12': ('who-may-write analysis of the roster cache fields + abstract evaluation of the push handler for a foreign sender + control-dependence of remove/insert + session-boundary must-call',
+            'Static: every write to the cached roster map is enumerated over the whole unit (whole library in thorough) and must sit in the push arm, the roster-result '
+            'continuation or clear(); handleStanza is explored for "from non-empty and bare(from) != own bare": parse, acknowledgement and mutations unreachable, returns false; '
+            'remove/insert are control-dependent on the item subscription type inside one loop under case Set; new (non-resumed) sessions clear before any use; presence table writers and their cases are fixed.',
+            'History-level equality of the view with "last roster + pushes in order" is not decided (reachability over states, not code shape).', 'DESIGN.md §2 C12'),
 }
 
 NOT_APPLICABLE_REASON = 'check not built yet in this session (see DESIGN.md); listed here until qxverif/rules/<id>.py exists'
